@@ -123,9 +123,14 @@ def _run(ops):
                     swallowed = cm.__exit__(Boom, e, None)
                     ok = ok and not swallowed
                 now = bindings()
-                # restores precisely what was bound on entry, touches nothing else
+                # restores precisely the protection in force on entry: an entry point that was the original on entry is
+                # the original again (nothing left behind); one that was protected on entry still refuses a flagged pickle
                 if not tainted:
-                    ok = ok and now[0] is before[0] and all(a is b for a, b in zip(now[1:], before[1:]))
+                    for j in range(4):
+                        if before[j] is ORIG[j]:
+                            ok = ok and now[j] is ORIG[j]
+                        elif j == 0:
+                            ok = ok and _blocked(now[0], io.BytesIO(FLAGGED))
             elif name == "probe-load" and not tainted:
                 if G or M or stack:
                     ok = ok and _blocked(pickle.load, io.BytesIO(FLAGGED))
